@@ -329,6 +329,8 @@ def check(ctx: Ctx) -> None:
                          f"{ENC}::FloatDataEncoding._get_raw_value") if ctx.prog.func_opt(k) is not None] or \
             [f"{ENC}::NumericDataEncoding.parse_value"]
     ctx.guard("R4.pure", ENC, effect_rule, ctx, CallGraph(ctx.prog), roots, "R4.pure", "numeric decoding")
+    from .c11 import reparse_rule
+    ctx.guard("R4.fresh", "packets.py::CCSDSPacket", reparse_rule, ctx, "R4.fresh")     # "for every packet and bit offset": each parse starts at bit 0
 
 
 def mutants(prog):
